@@ -27,6 +27,11 @@ HOT = {
     "type": ["null"], "enum": [[]], "minimum": [10 ** 9], "maxLength": [0], "maxItems": [0], "pattern": ["^\u0000$"],
 }
 ALL_TABLE_NAMES = None
+PARTNERS = {"minContains": "contains", "maxContains": "contains", "then": "if", "else": "if", "exclusiveMinimum": "minimum",
+            "exclusiveMaximum": "maximum", "unevaluatedItems": "items", "unevaluatedProperties": "properties", "prefixItems": "items",
+            "dependentRequired": "dependencies", "dependentSchemas": "dependencies", "$defs": "definitions",
+            "propertyNames": "properties", "contains": "items", "const": "enum", "divisibleBy": "multipleOf",
+            "multipleOf": "divisibleBy", "extends": "allOf", "disallow": "type", "required": "properties"}
 
 
 def foreign_names(d):
@@ -149,6 +154,12 @@ def apply_insertions(d, schema, ins, allow_ref_objects, only_ref_objects=False):
             if not req_pos:
                 continue
             p = req_pos[i["pos"] % len(req_pos)]
+        partner = PARTNERS.get(i["name"])
+        if partner and i["pos"] % 3:
+            # most of the time, right next to the keyword that some OTHER draft lets it modify
+            near = [q for q in pos if partner in walk.get(s2, q)]
+            if near:
+                p = near[i["pos"] % len(near)]
         node = walk.get(s2, p)
         if i["name"] in node:
             continue
